@@ -111,6 +111,46 @@ CHECKS = {
          "54 partial commands) + real classes through the real API; independent field-wise monitor.",
          TB + "command parameter values compared by equality of their serialisations.",
          "Coq proof + exhaustive small-universe and random differential correspondence", "7 C17"),
+ "C07": ("Theorems over the state machine of uart.send (FIFO transmit lock, ACK wait) + the ACK branch of data_received, for EVERY event "
+         "history (any number of concurrent senders; matching/stale/duplicate ACKs, silence, cancellation of the sender in flight or of "
+         "queued ones, incoming data, close): a data frame is written only when none is in flight and a frame in flight ends only by its "
+         "ACK, expiry or cancellation (stop-and-wait); callers are served in call order, each once (FIFO); a queued caller never waits "
+         "while the link is free. Tie: real uart.send under a virtual-time loop: all histories to depth 4/5 over a 9-letter alphabet + "
+         "random histories with up to 4 senders; independent trace monitor with virtual write times.",
+         TB + "PARTIAL w.r.t. the runtime: events are injected at quiescent points of the asyncio loop only; asyncio.Lock FIFO hand-over, "
+         "Event and async_timeout are modelled by the macro-step semantics (tested, not verified).",
+         "Coq proof (trace invariant by induction over histories) + differential correspondence", "7 C07"),
+ "C11": ("Theorems over the API state machine (Api.v) for every event history: the trace obeys the lock discipline - a data frame is "
+         "written only by the holder of the message lock and is the next fragment of its run (contiguous, in order, never interleaved), "
+         "FIFO hand-over only on release; every stamped fragment is the spec encoding of a well-formed frame carrying its piece (C09/C05); "
+         "a protocol-following NCP (spec parse + reassembly) recovers exactly header+parameters from a contiguous run (C10). Tie: real "
+         "ZBOSS+uart pair under a virtual-time loop, scenario campaign + reference-NCP monitor on the bytes written.",
+         TB + "PARTIAL: quiescent-point injection only; asyncio semantics modelled; the end-to-end composition (request -> wire -> NCP) is "
+         "proved per stage and checked end-to-end by the monitor, not as one Coq theorem; write guards in the model make the lock "
+         "discipline explicit (validated by Tie B).",
+         "Coq proof (trace invariant) + differential correspondence + reference-NCP monitor", "7 C11"),
+ "C13": ("Theorems for every event history: a request that is over never has a pending future (no waiter left) - whatever ended it "
+         "(response, timeout, cancellation in any phase, close, loss, refusal); a late response changes no request; a response goes to the "
+         "oldest LIVE waiter; outcomes are response/timeout/cancelled/runtime-error (never 'nothing'). Tie: scenario campaign + every "
+         "cancellation/timeout point x follow-up request for the same command.",
+         TB + "PARTIAL: quiescent-point injection only (cancellation delivered at every await the request can be parked on); asyncio "
+         "semantics modelled.",
+         "Coq proof (state invariant by induction over histories) + differential correspondence", "7 C13"),
+ "C14": ("Theorems for every event history: lock discipline - a blocking request's frames are written only while it holds the blocking "
+         "lock; the lock is acquired directly only when free with no waiters, waited for only when taken, handed over FIFO only when its "
+         "holder (whose request ended) releases it; the trace's abstract lock state equals the state's. Tie: scenario campaign (blocking/"
+         "non-blocking mixes, timing, timeouts, cancellations) + directed check that non-blocking requests do not wait for a blocking "
+         "request's response.",
+         TB + "PARTIAL: quiescent-point injection only; asyncio semantics modelled; 'non-blocking never waits' is checked by the monitor.",
+         "Coq proof (trace invariant) + differential correspondence", "7 C14"),
+ "C20": ("Theorems: after close() / loss the link is absent and stays absent; a request issued then is refused in the same step; the "
+         "application is told about a loss exactly when a loss happens while attached and no reset is in progress (count increases by "
+         "exactly one then, by zero for every other event); close detaches the app; no waiter survives. Termination of all requests "
+         "within the ACK wait after close is decided on the model by computation for instances and checked by the monitor at every "
+         "quiescent point of the scenarios (close/loss x reset x repeated close).",
+         TB + "PARTIAL: the general termination statement (all_done after Close; Tick ACK_TIMEOUT for ALL histories) is not proved (fuel "
+         "adequacy of the scheduler); the reconnect path of reset() is not modelled; quiescent-point injection only.",
+         "Coq proof (safety parts) + differential correspondence + termination monitor", "7 C20"),
 }
 
 checks = []
